@@ -287,7 +287,10 @@ def rule_p_pre(prog, res):
     """P-pre: the object invariants the interiors of parse/put are analysed under."""
     # Parser::new sites
     n = 0
+    absorbed = prog.absorbed_fns()
     for p in sorted(prog.fns):
+        if p in absorbed:
+            continue          # a helper / closure inlined at every call site: its sites are examined in the callers' inlined copies
         f = prog.fns[p]
         for b, t in f.calls():
             c = callee_of(t)
